@@ -15,7 +15,7 @@ ID = 'C09'
 LEVEL = 'exploration'
 TECHNIQUE = 'bounded exhaustive enumeration of small grammars x modes x formats x options, independent decoders of PMCFG/RCG/LoPar files, CLI executed in-process'
 
-WORDS = ['w', 'Haus', 'ärger', 'w', 'Über', 'USA', '3D', 'eMail']
+WORDS = ['w', 'Haus', 'ärger', 'w', 'Über', 'USA', '3D', 'eMail', '#1', '#']
 MODES = [None,
          {'reordering': 'none', 'markov': None},
          {'reordering': 'optimal', 'markov': None},
